@@ -149,8 +149,15 @@ class Exec(Engine):
         tgt = n.func.value
         if isinstance(tgt, ast.Name):
             p.bind(tgt.id, newv, nonlocal_=not (tgt.id in p.frames[-1]))
+        elif isinstance(tgt, ast.Attribute) and isinstance(tgt.value, ast.Name) and isinstance(p.lookup(tgt.value.id), SRec):
+            o = p.lookup(tgt.value.id)
+            f = dict(o.f)
+            f[tgt.attr] = newv
+            nr = SRec(o.cls, **f)
+            nr.isa = getattr(o, "isa", (o.cls,))
+            p.bind(tgt.value.id, nr, nonlocal_=not (tgt.value.id in p.frames[-1]))
         else:
-            raise OutOfSubset("mutation of a list not held in a plain name")
+            raise OutOfSubset("mutation of a list not held in a plain name or a record field")
 
     def method(s, n, o, attr, av, kw, p):
         if isinstance(o, (SSeq, STup)) and attr in ("append", "insert", "extend", "pop"):
@@ -324,7 +331,8 @@ class Exec(Engine):
             elif isinstance(v, SConc):
                 yield SConc(type(v.v)), p1
             else:
-                raise OutOfSubset("type()")
+                s.abstracted.add("type() of a modelled value (opaque)")
+                yield SConc(object), p1
 
     def bi_id(s, n, p):
         for v, p1 in s.ev(n.args[0], p):
@@ -922,10 +930,10 @@ class Exec(Engine):
     def run(s, fnode, env, pre, ghost=None):
         """execute a function body from the entry; returns list of (outcome, path)"""
         p = Path([dict(env)], list(pre), ghost)
-        outs = s.exec_stmt(ast.If(test=ast.Constant(True), body=fnode.body, orelse=[], lineno=fnode.lineno), p) if False else None
+        body = fnode if isinstance(fnode, list) else fnode.body
         s._exc.append([])
         try:
-            outs = s.exec_block(fnode.body, [p])
+            outs = s.exec_block(body, [p])
         finally:
             exc = s._exc.pop()
         return outs + exc
